@@ -136,6 +136,12 @@ impl Decimal {
     { unimplemented!() }
     #[verifier::external_body]
     pub fn to_string(&self) -> (r: String) { unimplemented!() }
+    /// `std::ops::Mul::mul` called in method syntax (`rate.mul(amount)`): Decimal * Uint128
+    #[verifier::external_body]
+    pub fn mul(self, rhs: Uint128) -> (r: Uint128)
+        requires mul_floor(rhs.0 as nat, self.0 as nat) <= u128::MAX
+        ensures r.0 == mul_floor(rhs.0 as nat, self.0 as nat)
+    { unimplemented!() }
 }
 impl Default for Decimal { fn default() -> (r: Decimal) ensures r.0 == 0 { Decimal(0) } }
 
@@ -421,3 +427,8 @@ impl UnwrapOrZero for Result<Uint128, StdError> {
         ensures self is Ok ==> o == self->Ok_0, self is Err ==> o.0 == 0
     { match self { Ok(v) => v, Err(_) => Uint128(0) } }
 }
+
+#[verifier::external]
+impl core::fmt::Display for Uint128 { fn fmt(&self, f: &mut core::fmt::Formatter<'_>) -> core::fmt::Result { write!(f, "{}", self.0) } }
+#[verifier::external]
+impl core::fmt::Display for Decimal { fn fmt(&self, f: &mut core::fmt::Formatter<'_>) -> core::fmt::Result { write!(f, "{}", self.0) } }
